@@ -47,7 +47,9 @@ MANIFEST = dict(
          "code's signed overflow in size/time parsing is modelled as 64-bit wrap-around)")
 
 CWD = b"o/w"
-SAN_FLAGS = ("-fwrapv", "-fno-sanitize=signed-integer-overflow")
+# -ftrivial-auto-var-init=pattern: an automatic variable read before it is written holds 0xFE.. instead of whatever
+# the stack held (usually 0), so such a read shows (e.g. a pointer test `if (!p)` goes the other way)
+SAN_FLAGS = ("-fwrapv", "-fno-sanitize=signed-integer-overflow", "-ftrivial-auto-var-init=pattern")
 
 
 def read_const(name):
@@ -201,6 +203,24 @@ def gen_stream(rng):
         i = rng.randrange(len(s) + 1)
         s = s[:i] + bytes(rng.randrange(256) for _ in range(rng.randrange(1, 12))) + s[i:]
     return s
+
+
+def gen_deep(rng):
+    """bias towards the branches a plain run rarely takes (see evidence distribution.receiver_branches): input that
+    ends 3..6 directory levels deep -- in a record, in file data, before the response byte, with times pending on
+    every level -- negative sizes, a time record without a control record"""
+    p = rng.choice([0, 1, 1])
+    depth = rng.randrange(3, 7)
+    s = b""
+    for k in range(depth):
+        if p and rng.random() < 0.8:
+            s += b"T%d 0 %d 0\n" % (1200000000 + k, 1300000000 + k)
+        s += b"D%04o 0 lvl%d\n" % (rng.choice([0o755, 0o700, 0o2775, 0o500]), k)
+    tail = rng.choice([b"", b"C06", b"C0644 5 f\nab", b"C0644 3 f\nabc", b"C0644 3 f\nabc\0", b"C0644 -5 neg\n\0",
+                       b"T1 0 1 0\n", b"T1 0 1 0\nT2 0 2 0\n", b"C0644 0 empty\n", b"E\n", b"E\nE\n",
+                       b"C0644 3 f\nabc\1", b"\2bye\n", b"T1 0 1 9999999\nC0644 1 u\nA\0"])
+    return dict(stream=s + tail, dest=b"dest", p=p, y=rng.choice([0, 1]), um=rng.choice([0o22, 0o77, 0]), fd=rng.choice([0, 1]),
+                prepop=rng.random() < 0.5, destmode=0o755, fsz=0, bigold=False, files=None)
 
 
 def gen_case(rng):
@@ -613,6 +633,7 @@ def run_binary(ctx, cases, cnt, var, cov, dist, distinct):
 
 def run(ctx):
     rng = ctx.rng
+    pcp.BRANCHES.clear()
     ctx.gen_consts(["pcp"])
     ctx.lean_build([PROPS, "pdshmodel"])
     ctx.audit(PROPS)
@@ -650,12 +671,16 @@ def run(ctx):
                                   prepop=rc["prepopulated"], destmode=int(rc["destmode"], 8),
                                   fsz=rc.get("file_size_limit", 0), bigold=rc.get("bigold", False)))
         cases += [gen_case(rng) for _ in range(n)]
+        import random
+        rng2 = random.Random(ctx.seed * 7919 + 12)       # own stream: the cases above stay what they were
+        cases += [gen_deep(rng2) for _ in range(40 if ctx.quick() else 1000)]
         for i in range(0, len(cases), 4000):
             run_cases(ctx, exe, cases[i:i + 4000], cnt, var, cov, dist, distinct)
         nb = 60 if ctx.quick() else 1500
         if os.environ.get("VERIF_C12_BINARY", "1") != "0":
             run_binary(ctx, CORPUS + [gen_case(rng) for _ in range(nb)], cnt, var, cov, dist, distinct)
     cov["distinct_nontrivial"] = len(distinct)
+    pcp.branch_report(dist)
     cov["distribution"] = dist
     cov["traces_validated_against_impl"] = cov["evaluations"]
     return ctx.finish(
